@@ -9,6 +9,8 @@ import (
 	"fmt"
 	"io"
 	"net"
+	"os"
+	"syscall"
 	"time"
 
 	modbus "github.com/aldas/go-modbus-client"
@@ -69,11 +71,16 @@ type C1 struct {
 	TID    uint16
 	LibReq packet.Request
 
-	Reply   []byte // bytes the transport will deliver (before any terminal fault)
-	Full    []byte // the complete well-formed reply (Reply may be a prefix or a corruption of it)
-	IsExc   bool
-	ExcCode byte
-	Chunks  []Chunk
+	IOErr           error  // identity of the injected hard I/O error (nil: the plain sentinel); always wraps ErrSimIO
+	Endless         bool   // oversize: after the scripted bytes the sender never stops
+	DeadlinePort    bool   // serial port without Flush but with SetReadDeadline
+	NilHooksOption  bool   // serial client built with WithSerialHooks(nil) when no hooks are wanted
+	WrappedTimeouts bool   // network transports report read timeouts as a *net.OpError wrapping the sentinel, as real sockets do
+	Reply           []byte // bytes the transport will deliver (before any terminal fault)
+	Full            []byte // the complete well-formed reply (Reply may be a prefix or a corruption of it)
+	IsExc           bool
+	ExcCode         byte
+	Chunks          []Chunk
 
 	EOFWithLast  bool
 	ReadTimeout  time.Duration
@@ -150,6 +157,11 @@ func (p plainPort) Read(b []byte) (int, error)  { return p.c.Read(b) }
 func (p plainPort) Write(b []byte) (int, error) { return p.c.Write(b) }
 func (p plainPort) Close() error                { return p.c.Close() }
 
+// deadlinePort is a port without Flush that offers a read deadline (as serial libraries built on file descriptors do).
+type deadlinePort struct{ plainPort }
+
+func (p deadlinePort) SetReadDeadline(t time.Time) error { return p.c.SetReadDeadline(t) }
+
 type flushPort struct {
 	c       *Conn
 	flushes *int
@@ -163,6 +175,27 @@ func (p flushPort) Flush() error {
 	*p.flushes++
 	p.c.sim.Logf("flush %s", p.c.Name)
 	return p.failErr
+}
+
+// ioErrKinds: what a broken connection reports in practice. Each wraps ErrSimIO so that oracles can ask for the cause.
+var ioErrCauses = []error{nil, syscall.ECONNRESET, syscall.EPIPE, syscall.ECONNABORTED, net.ErrClosed, io.ErrClosedPipe, io.ErrUnexpectedEOF}
+
+func genIOErr(t *Tape) error {
+	c := ioErrCauses[t.Choose(len(ioErrCauses))]
+	if c == nil {
+		return nil
+	}
+	if t.Choose(2) == 0 {
+		return &net.OpError{Op: "read", Net: "sim", Err: fmt.Errorf("%w: %w", c, ErrSimIO)}
+	}
+	return fmt.Errorf("%w: %w", ErrSimIO, c)
+}
+
+func (sc *C1) ioErr() error {
+	if sc.IOErr != nil {
+		return sc.IOErr
+	}
+	return ErrSimIO
 }
 
 var errSimFlush = fmt.Errorf("simulated flush failure: %w", ErrSimIO)
@@ -209,9 +242,9 @@ func RunC1(rc *RunCtx, sc *C1) *C1Outcome {
 			}
 		case FIOErr:
 			if sc.ErrWithData && len(segs) > 0 {
-				segs[len(segs)-1].err = ErrSimIO
+				segs[len(segs)-1].err = sc.ioErr()
 			} else {
-				segs = append(segs, seg{err: ErrSimIO, gap: sc.FaultGap, solo: true})
+				segs = append(segs, seg{err: sc.ioErr(), gap: sc.FaultGap, solo: true})
 			}
 		default:
 			if sc.EOFWithLast && len(segs) > 0 {
@@ -225,16 +258,23 @@ func RunC1(rc *RunCtx, sc *C1) *C1Outcome {
 		if sc.Fault == FEOF || sc.Fault == FIOErr || sc.EOFWithLast {
 			c.PushEOF()
 		}
+		if sc.Endless {
+			c.Endless = true
+			c.ArmEndless()
+		}
 	}
 	cl.OnWrite = arm
 	switch sc.Fault {
 	case FWriteErr:
-		cl.WriteErr = ErrSimIO
+		cl.WriteErr = sc.ioErr()
 	case FShortWrite:
-		cl.WriteErr = fmt.Errorf("short write: %w", ErrSimIO)
+		cl.WriteErr = fmt.Errorf("short write: %w", sc.ioErr())
 		cl.WriteErrN = 3
 	case FWriteDeadlineErr:
-		cl.WDeadlineErr = fmt.Errorf("set write deadline: %w", ErrSimIO) // what a connection that is already gone answers
+		cl.WDeadlineErr = fmt.Errorf("set write deadline: %w", sc.ioErr()) // what a connection that is already gone answers
+	}
+	if sc.WrappedTimeouts {
+		cl.TimeoutErr = &net.OpError{Op: "read", Net: "sim", Err: os.ErrDeadlineExceeded}
 	}
 
 	var hooks *recHooks
@@ -309,12 +349,16 @@ func RunC1(rc *RunCtx, sc *C1) *C1Outcome {
 				fp.failErr = errSimFlush
 			}
 			port = fp
+		} else if sc.DeadlinePort {
+			port = deadlinePort{plainPort{cl}}
 		} else {
 			port = plainPort{cl}
 		}
 		opts := []modbus.SerialClientOptionFunc{modbus.WithSerialReadTimeout(sc.ReadTimeout)}
 		if hooks != nil {
 			opts = append(opts, modbus.WithSerialHooks(hooks))
+		} else if sc.NilHooksOption {
+			opts = append(opts, modbus.WithSerialHooks(nil)) // "no hooks" said explicitly
 		}
 		if sc.Fault == FNotConnected {
 			port = nil
